@@ -178,6 +178,18 @@ def _pair_chain(ff: FuncFlow, e: Optional[ast.AST], p_iter: str):
             continue
           qfn = r.func
           nxt = x.args[1]
+      elif (isinstance(x, (ast.GeneratorExp, ast.ListComp)) and len(x.generators) == 1 and not x.generators[0].ifs and
+            isinstance(x.generators[0].target, ast.Tuple) and isinstance(x.elt, ast.Call)):
+        # (f(a, b) for a, b in SRC)  ==  starmap(f, SRC)
+        g_ = x.generators[0]
+        tg_ = [t.id for t in g_.target.elts if isinstance(t, ast.Name)]
+        r = ff.resolve(x.elt.func)
+        if r.kind == 'func' and [txt(a) for a in x.elt.args] == tg_ and not x.elt.keywords:
+          if _is_passthrough_stage(ff, r.func):
+            nxt = g_.iter
+            continue
+          qfn = r.func
+          nxt = g_.iter
       elif isinstance(x, ast.Call) and ff.ext(x.func) == 'builtins.zip' and len(x.args) == 2:
         if ff.param_of(x.args[0]) == p_iter:
           return qfn is not None, qfn, x.args[1]
